@@ -4,7 +4,8 @@
    tools/props/C16.py compares with /repo on every check (both backends).  A date is identified with its proleptic ordinal
    (date_ord, Spec/Cal.v); wf_date p = p is a date of the supported range (valid, year 1..9999); weekdays are pendulum's
    WeekDay numbers Monday = 0 .. Sunday = 6 (dow); units U_MONTH, U_QUARTER, U_YEAR; MAXORD = ordinal of 9999-12-31;
-   date_of_ord n = Ok (the date with ordinal n) inside 1..MAXORD, Raise OverflowError outside (what `date + timedelta` does). *)
+   date_of_ord n = Ok (the date with ordinal n) inside 1..MAXORD, Raise OverflowError outside (what `date + timedelta` does:
+   next/previous at the edges of the range; nth_of catches it, see nth_of_raises_pendulum_exception). *)
 From Coq Require Import ZArith Bool.
 From PV Require Import Lib.PyBase Spec.Cal Proofs.CalFacts Model.Weekday Proofs.C16Facts Proofs.C16DateTime.
 From PV Require Import Gen.WeekdayNav Proofs.C16Gen.
@@ -98,8 +99,8 @@ Proof. exact last_of_none_is_last_day. Qed.
 Print Assumptions last_of_default_is_last_day.
 
 (* ---- nth_of ---- *)
-(* complete description for every n >= 1: with t = first occurrence + 7 (n - 1),
-   Ok (date t) if t is inside the unit, else PendulumException if t is still a date, else OverflowError *)
+(* complete description for every n >= 1 and every date of years 1..9999: with t = first occurrence + 7 (n - 1),
+   Ok (date t) if t is inside the unit, else PendulumException (nth_result, Proofs/C16Facts.v) *)
 Theorem nth_of_closed_form : forall u p n wd, is_unit u -> wf_date p -> valid_wd wd -> 1 <= n ->
   d_nth_of u p n wd = nth_result u p n wd.
 Proof. exact d_nth_of_spec. Qed.
@@ -117,32 +118,50 @@ Theorem nth_of_is_n_minus_1_weeks_after_first_of : forall u p n wd q, is_unit u 
 Proof. exact nth_of_weekday. Qed.
 Print Assumptions nth_of_is_n_minus_1_weeks_after_first_of.
 
-(* "raises PendulumException when the unit holds fewer than n": holds wherever the n-th occurrence would still be a date ... *)
-Theorem nth_of_raises_pendulum_exception_partial : forall u p n wd, is_unit u -> wf_date p -> valid_wd wd -> 1 <= n ->
-  unit_end u p < first_occ (unit_start u p) wd + 7 * (n - 1) <= MAXORD ->
+(* "raises PendulumException when the unit holds fewer than n": at full strength, for every date of years 1..9999.
+   (Finding nth-of-overflow-at-max-year, now fixed: in year 9999 the OverflowError of the dt.next() loop used to escape when
+   the n-th occurrence would fall after 9999-12-31; nth_of now turns it into "no such occurrence".) *)
+Theorem nth_of_raises_pendulum_exception : forall u p n wd, is_unit u -> wf_date p -> valid_wd wd -> 1 <= n ->
+  unit_end u p < first_occ (unit_start u p) wd + 7 * (n - 1) ->
   d_nth_of u p n wd = Raise E_PendulumException.
-Proof. exact nth_of_exception_kind_partial. Qed.
-Print Assumptions nth_of_raises_pendulum_exception_partial.
+Proof. exact nth_of_exception_kind. Qed.
+Print Assumptions nth_of_raises_pendulum_exception.
 
-(* ... in particular for every date before year 9999 and n <= 54 no OverflowError can occur ... *)
-Theorem nth_of_no_overflow_below_9999 : forall u p n wd, is_unit u -> wf_date p -> valid_wd wd -> 1 <= n <= 54 ->
-  d_year p <= 9998 -> d_nth_of u p n wd <> Raise E_OverflowError.
-Proof. exact nth_of_no_overflow_before_9999. Qed.
-Print Assumptions nth_of_no_overflow_below_9999.
+Theorem nth_of_raises_iff_beyond_unit : forall u p n wd, is_unit u -> wf_date p -> valid_wd wd -> 1 <= n ->
+  (d_nth_of u p n wd = Raise E_PendulumException <-> unit_end u p < first_occ (unit_start u p) wd + 7 * (n - 1)).
+Proof. exact nth_of_exception_iff. Qed.
+Print Assumptions nth_of_raises_iff_beyond_unit.
 
-(* ... and is false of the current code at the upper edge (known finding nth-of-overflow-at-max-year):
-   Date(9999, 12, 1).nth_of("month", 5, MONDAY) raises OverflowError *)
-Theorem nth_of_raises_pendulum_exception_refuted :
-  exists u p n wd, is_unit u /\ wf_date p /\ valid_wd wd /\ 1 <= n /\
-    unit_end u p < first_occ (unit_start u p) wd + 7 * (n - 1) /\
-    d_nth_of u p n wd = Raise E_OverflowError.
-Proof. exact nth_of_exception_kind_refuted. Qed.
-Print Assumptions nth_of_raises_pendulum_exception_refuted.
+(* PendulumException is the only exception: in particular no OverflowError anywhere in the range, whatever n *)
+Theorem nth_of_raises_nothing_else : forall u p n wd e, is_unit u -> wf_date p -> valid_wd wd -> 1 <= n ->
+  d_nth_of u p n wd = Raise e -> e = E_PendulumException.
+Proof. exact nth_of_only_pendulum_exception. Qed.
+Print Assumptions nth_of_raises_nothing_else.
 
-Theorem nth_of_overflow_region : forall u p n wd, is_unit u -> wf_date p -> valid_wd wd -> 1 <= n ->
-  (d_nth_of u p n wd = Raise E_OverflowError <-> MAXORD < first_occ (unit_start u p) wd + 7 * (n - 1)).
-Proof. exact nth_of_overflow_iff. Qed.
-Print Assumptions nth_of_overflow_region.
+Theorem nth_of_never_overflows : forall u p n wd, is_unit u -> wf_date p -> valid_wd wd -> 1 <= n ->
+  d_nth_of u p n wd <> Raise E_OverflowError.
+Proof. exact C16Facts.nth_of_never_overflows. Qed.
+Print Assumptions nth_of_never_overflows.
+
+(* the property as stated: the n-th day on weekday wd inside the unit, or PendulumException when the unit holds fewer than n
+   (every day of the unit on weekday wd lies before the place of the n-th one) *)
+Theorem nth_of_returns_nth_or_raises : forall u p n wd, is_unit u -> wf_date p -> valid_wd wd -> 1 <= n ->
+  (exists q, d_nth_of u p n wd = Ok q /\ wf_date q /\ in_unit u p q /\ dow q = wd /\
+             date_ord q = first_occ (unit_start u p) wd + 7 * (n - 1)) \/
+  (d_nth_of u p n wd = Raise E_PendulumException /\
+   forall q', wf_date q' -> in_unit u p q' -> dow q' = wd -> date_ord q' < first_occ (unit_start u p) wd + 7 * (n - 1)).
+Proof. exact nth_of_total. Qed.
+Print Assumptions nth_of_returns_nth_or_raises.
+
+(* the former witnesses of the finding as ordinary instances: Date(9999,12,1).nth_of("month",5,MONDAY),
+   Date(9999,1,1).nth_of("year",53,MONDAY) raise PendulumException; the 14th Friday of the last quarter is 9999-12-31 *)
+Theorem nth_of_at_max_year :
+  d_nth_of U_MONTH (mkdate 9999 12 1) 5 0 = Raise E_PendulumException /\
+  d_nth_of U_YEAR (mkdate 9999 1 1) 53 0 = Raise E_PendulumException /\
+  d_nth_of U_QUARTER (mkdate 9999 11 15) 14 4 = Ok (mkdate 9999 12 31) /\
+  d_nth_of U_QUARTER (mkdate 9999 11 15) 15 4 = Raise E_PendulumException.
+Proof. exact nth_of_max_year_examples. Qed.
+Print Assumptions nth_of_at_max_year.
 
 (* outside the stated domain (n <= 0) the current code returns the first day of the unit, on whatever weekday
    (known finding nth-of-nonpositive-returns-first-day): Date(2024, 5, 17).nth_of("month", 0, MONDAY) = 2024-05-01, a Wednesday *)
